@@ -121,3 +121,80 @@ func VH_C09_firstaccess() {
 		vLockCheck("C09.first.DeleteAll", db2, func() { db2.DeleteAll(&vObj{}) })
 	}
 }
+
+// VH_C09_errorpaths: calls that FAIL (unknown operator or field, bad
+// value, rejected object, missing object, incompatible schema) also
+// release every lock they acquired, so that a later writer is not blocked.
+func VH_C09_errorpaths() {
+	cfg := vhPickCfg()
+	db, _ := vhOpenRich(cfg)
+	a := vhNewRich(0, "")
+	b := vhNewRich(1, "")
+	vAssert("C09.err.pre", db.InsertOrUpdate(a) == nil && db.InsertOrUpdate(b) == nil)
+	ok := db.Search(&vRich{}, "K", ">=", int64(0))
+	type otherT struct {
+		Item
+		Z int64
+	}
+	switch vChoice("entry", 16) {
+	case 0:
+		vLockCheck("C09.err.Search.bad_operator", db, func() { db.Search(&vRich{}, "K", "??", int64(1)) })
+	case 1:
+		vLockCheck("C09.err.Search.unknown_field", db, func() { db.Search(&vRich{}, "Nope", "=", int64(1)) })
+	case 2:
+		vLockCheck("C09.err.Search.bad_value", db, func() { db.Search(&vRich{}, "K", "=", "string for an int field") })
+	case 3:
+		vLockCheck("C09.err.Search.unindexed.bad_operator", db, func() { db.Search(&vRich{}, "P", "??", "x") })
+	case 4:
+		vLockCheck("C09.err.And.bad_operator", db, func() { ok.And("K", "??", int64(1)) })
+	case 5:
+		vLockCheck("C09.err.And.unknown_field", db, func() { ok.And("Nope", "=", int64(1)) })
+	case 6:
+		vLockCheck("C09.err.Or.bad_operator", db, func() { ok.Or("K", "??", int64(1)) })
+	case 7:
+		vLockCheck("C09.err.Or.bad_regexp", db, func() { ok.Or("Q", "~=", "[") })
+	case 8:
+		vLockCheck("C09.err.Or.unindexed_bad_value", db, func() { ok.Or("P", "=", int64(3)) })
+	case 9:
+		vLockCheck("C09.err.InsertOrUpdate.unique", db, func() {
+			c := vhNewRich(2, "")
+			c.K = a.K
+			db.InsertOrUpdate(c)
+		})
+	case 10:
+		vLockCheck("C09.err.InsertOrUpdateMany.unique", db, func() {
+			c := vhNewRich(2, "")
+			c.K = a.K
+			db.InsertOrUpdateMany(vhNewRich(3, ""), c)
+		})
+	case 11:
+		vLockCheck("C09.err.Get.absent", db, func() { db.GetByUUID(&vRich{}, vhAbsentUUID) })
+	case 12:
+		vLockCheck("C09.err.unknown_collection", db, func() {
+			db.InsertOrUpdate(&otherT{Z: 1})
+			db.Search(&otherT{}, "Z", "=", int64(1)).Collect()
+			db.All(&otherT{})
+			db.Count(&otherT{})
+			db.Delete(&otherT{})
+			db.Repair(&otherT{})
+		})
+	case 13:
+		vLockCheck("C09.err.Create.incompatible", db, func() {
+			s := vhSchema(cfg)
+			s.Extension = ".other"
+			db.Create(&vRich{}, s)
+		})
+	case 14:
+		vLockCheck("C09.err.Collect.deleted", db, func() {
+			s := db.Search(&vRich{}, "K", "=", b.K)
+			db.Delete(b)
+			s.Collect()
+			s.One()
+		})
+	case 15:
+		vLockCheck("C09.err.AssignIndex.unindexed", db, func() {
+			var t []string
+			db.AssignIndex(&vRich{}, "P", &t)
+		})
+	}
+}
